@@ -125,13 +125,7 @@ def judgeStats (vals rv : List Bits) (mn mean mx : Bits) : String :=
     let big := qs.foldl (fun a x => if rabs x > a then rabs x else a) 0
     -- with a zero interquartile range the float computation of the fence is exact (q ± 1.5·0)
     let eps := if q1 == q3 then 0 else big * pow2 40
-    -- overflow class: when the span of the values is not representable in float64 (≥ 2^1024 − 2^970) the
-    -- quartile interpolation `x[k-1] + frac·(x[k] − x[k-1])` and stats.Mean's `x − m` overflow; such
-    -- inputs are outside the hypotheses of the theorems and are judged by the correspondence only
-    let allMin := qs.foldl (fun a x => if x < a then x else a) (qs.headD 0)
-    let allMax := qs.foldl (fun a x => if x > a then x else a) (qs.headD 0)
-    if allMax - allMin ≥ (2 : Rat) ^ 1024 - (2 : Rat) ^ 970 then "ok"
-    else if !matchRetained lo hi eps vals rv then "retained"
+    if !matchRetained lo hi eps vals rv then "retained"
     else if rv.isEmpty then (if isNaN mn && isNaN mean && isNaN mx then "ok" else "empty-not-nan")
     else
       let rq := rv.map toRat
@@ -139,10 +133,6 @@ def judgeStats (vals rv : List Bits) (mn mean mx : Bits) : String :=
       let mxQ := rq.foldl (fun a x => if x > a then x else a) (rq.headD 0)
       if !isFinite mn || !rv.contains mn || toRat mn != mnQ then "min"
       else if !isFinite mx || !rv.contains mx || toRat mx != mxQ then "max"
-      -- Max − Min overflows float64 (≥ 2^1024 − 2^970): `x − m` can overflow inside stats.Mean and the float
-      -- mean is then ±Inf/NaN (theorem mean_overflow_counterexample); outside the hypothesis of
-      -- mean_between_min_max the mean is judged by the correspondence only
-      else if mxQ - mnQ ≥ (2 : Rat) ^ 1024 - (2 : Rat) ^ 970 then "ok"
       else if !isFinite mean then "mean-not-finite"
       else if !(le mn mean && le mean mx) then "mean-outside-min-max"
       else
@@ -189,6 +179,21 @@ def Input.units (inp : Input) : List Str := firstAppearance (inp.samples.map (·
 def Input.groups (inp : Input) : List Str := firstAppearance (inp.samples.map (·.group))
 def Input.benches (inp : Input) (g : Str) : List Str :=
   firstAppearance ((inp.samples.filter (·.group == g)).map (·.bench))
+
+/-- the class of the known finding N17ovf: some metric's finite values span at least 2^1024 − 2^970, i.e.
+`Max − Min` is not representable in float64, so the quartile interpolation and stats.Mean's `x − m` can
+overflow (theorems mean_overflow_counterexample, fence_overflow_counterexample) -/
+def spanOverflows (vals : List Bits) : Bool :=
+  if vals.isEmpty || vals.any (fun v => !isFinite v) then false
+  else
+    let qs := vals.map toRat
+    let mn := qs.foldl (fun a x => if x < a then x else a) (qs.headD 0)
+    let mx := qs.foldl (fun a x => if x > a then x else a) (qs.headD 0)
+    decide (mx - mn ≥ (2 : Rat) ^ 1024 - (2 : Rat) ^ 970)
+
+def Input.overflowClass (inp : Input) : Bool :=
+  (firstAppearance inp.configs).any fun cfg => inp.units.any fun u => inp.groups.any fun g =>
+    (inp.benches g).any fun b => spanOverflows (inp.valuesOf cfg g b u)
 
 structure ImplMetric where
   cfg : Str
